@@ -41,15 +41,16 @@ def matched_pair(rng, ldim, tier):
         c = c * 0.7 if c >= 0.55 else c          # no polar mapping outside 2-D
     if c < 0.40:
         return sym("M1"), sym("M2"), ax, em, ep, "symbolic|symbolic"
+    def det(Mx):
+        if ldim == 1:
+            return Mx[0][0]
+        if ldim == 2:
+            return Mx[0][0] * Mx[1][1] - Mx[0][1] * Mx[1][0]
+        return (Mx[0][0] * (Mx[1][1] * Mx[2][2] - Mx[1][2] * Mx[2][1]) - Mx[0][1] * (Mx[1][0] * Mx[2][2] - Mx[1][2] * Mx[2][0])
+                + Mx[0][2] * (Mx[1][0] * Mx[2][1] - Mx[1][1] * Mx[2][0]))
+
     if c < 0.55:
         # affine | affine: F2 continues F1 across the face with another (constant) derivative across it
-        def det(Mx):
-            if ldim == 1:
-                return Mx[0][0]
-            if ldim == 2:
-                return Mx[0][0] * Mx[1][1] - Mx[0][1] * Mx[1][0]
-            return (Mx[0][0] * (Mx[1][1] * Mx[2][2] - Mx[1][2] * Mx[2][1]) - Mx[0][1] * (Mx[1][0] * Mx[2][2] - Mx[1][2] * Mx[2][0])
-                    + Mx[0][2] * (Mx[1][0] * Mx[2][1] - Mx[1][1] * Mx[2][0]))
         ident = rng.random() < 0.4
         bm, bp = (1 if em == 1 else 0), (1 if ep == 1 else 0)
         while True:
@@ -74,7 +75,7 @@ def matched_pair(rng, ldim, tier):
         # one symbolic, one affine: the oracle derives the polynomial map of the symbolic side from the affine one
         while True:
             A = [[(rng.randint(1, 3) if i == j else rng.randint(-1, 1)) for j in range(ldim)] for i in range(ldim)]
-            if (ldim == 2 and A[0][0] * A[1][1] - A[0][1] * A[1][0] != 0) or ldim != 2:
+            if det(A) != 0:          # an affine mapping must be invertible in every dimension
                 break
         p = {"c%d" % (i + 1): (rng.randint(-1, 2), 1) for i in range(ldim)}
         p.update({"a%d%d" % (i + 1, j + 1): (A[i][j], 1) for i in range(ldim) for j in range(ldim)})
